@@ -40,6 +40,9 @@ CLAIMED['C04'] = ("reference-model monitor: neutral tree model + independent WKB
 CLAIMED['C05'] = ("reference-model monitor: tree model round trip, strict OGC-BNF parser on the library's text, shortest-numeral check, independent printer producing token-level re-spellings, trailing-token and WKT-vs-WKB monitors",
   "Exploration by runtime monitoring: thousands of arbitrary finite-ordinate trees per run plus the zero value of every Go type are rendered by AsText/AppendWKT and re-parsed; the text is judged by an independent strict grammar and 16 re-spellings per tree are fed back to UnmarshalWKT. Holds for the trees observed.",
   "exact decimal conversion via math/big; only the geometry-type keyword's case is varied (as the statement says)", "DESIGN.md §3 C05")
+CLAIMED['C06'] = ("runtime monitor: encoding/json as independent syntax/shape referee on MarshalJSON output, harness model of the format's forced losses for the round trip, concrete-type decode matrix, grammar-generated documents with a decision model, Feature/FeatureCollection round trips compared as encoding/json values",
+  "Exploration by runtime monitoring: thousands of valid geometries per run (7 types x 4 coordinate types, empty members, nested collections, all finite float64 classes) are marshalled, re-parsed generically for RFC 7946 shape, decoded by UnmarshalGeoJSON/json.Unmarshal into Geometry and every concrete type and compared with the image under the forced losses; grammar documents (positions of length 0..5, mixed dimensions, unknown types, nulls) and generated features are decoded and judged by the harness's model.",
+  "forced-loss model is the harness's reading of the statement; documents with nulls/missing members are judged only for absence of panics", "DESIGN.md §3 C06")
 REASONS = {}
 hooks_commits = subprocess.run(['git','-C','/repo','log','--format=%h %s'],capture_output=True,text=True).stdout.splitlines()
 hook_commits = [l.split()[0] for l in hooks_commits if l.split(' ',1)[1].startswith('verif hook')]
